@@ -256,13 +256,43 @@ func findFunctionCallViolation(
 	return nil
 }
 
+// testOnlyTypeIn returns the defined type a type expression uses: the type itself,
+// the type it points to, or - for []T, [n]T, map[K]V, chan T, ...T and their
+// nestings - the first element / key type that is marked @testonly
+// (a production variable of type []Mock uses Mock just like one of type Mock)
+func testOnlyTypeIn(ctx *testOnlyContext, t types.Type) *util.TypeInfo {
+	for depth := 0; t != nil && depth < 16; depth++ {
+		if info := util.ExtractTypeInfo(t); info != nil {
+			return info
+		}
+		switch u := types.Unalias(t).(type) {
+		case *types.Pointer:
+			t = u.Elem()
+		case *types.Slice:
+			t = u.Elem()
+		case *types.Array:
+			t = u.Elem()
+		case *types.Chan:
+			t = u.Elem()
+		case *types.Map:
+			if info := testOnlyTypeIn(ctx, u.Key()); info != nil && ctx.testOnlyTypes.Contains(info.PkgPath, info.TypeName) {
+				return info
+			}
+			t = u.Elem()
+		default:
+			return nil
+		}
+	}
+	return nil
+}
+
 // findTypeLiteralViolation checks composite literals for @testonly types
 // Returns violation or nil
 func findTypeLiteralViolation(
 	ctx *testOnlyContext,
 	node *ast.CompositeLit,
 ) *TestOnlyViolation {
-	typeInfo := util.ExtractTypeInfo(ctx.pass.TypesInfo.TypeOf(node))
+	typeInfo := testOnlyTypeIn(ctx, ctx.pass.TypesInfo.TypeOf(node))
 	if typeInfo == nil {
 		return nil
 	}
@@ -292,7 +322,7 @@ func findTypeUsageViolation(
 		return nil
 	}
 
-	typeInfo := util.ExtractTypeInfo(ctx.pass.TypesInfo.TypeOf(typeExpr))
+	typeInfo := testOnlyTypeIn(ctx, ctx.pass.TypesInfo.TypeOf(typeExpr))
 	if typeInfo == nil {
 		return nil
 	}
